@@ -314,6 +314,12 @@ def evaluate(case, env):
                     # unbalanced bracket characters every line break looks like one inside brackets, so a chain continued
                     # on the next line, or any chain further down, is searched across line ends
                     continue
+                if re.search(r"[(\[]\s*\.\d", seg):
+                    # input feature of a recorded finding: a number written with a leading dot right behind an opening bracket
+                    out.labels["leading_dot_number_behind_bracket"] += 1
+                    if env.known("leading_dot_number_behind_bracket"):
+                        out.excluded["leading_dot_number_behind_bracket"] += 1
+                        continue
                 for o in range(start, end):
                     p = w.get_primary_at(o)
                     if _norm_chain(p) != _norm_chain(seg):
